@@ -510,7 +510,9 @@ func (e *Engine) stdStub(full string, c *ast.CallExpr, recv *Value, args []Value
 	}
 	// generic: pure packages
 	pkgPath := ""
-	if i := strings.LastIndex(full, "."); i >= 0 {
+	if fn := e.staticCallee(c); fn != nil && fn.Pkg() != nil {
+		pkgPath = fn.Pkg().Path()
+	} else if i := strings.LastIndex(full, "."); i >= 0 {
 		pkgPath = strings.TrimLeft(full[:i], "(*")
 		if j := strings.Index(pkgPath, ")"); j >= 0 {
 			pkgPath = pkgPath[:j]
